@@ -182,7 +182,9 @@ func (g *Gen) useAxiom(env *Env, u *CE) {
 	params := []ParamDecl{}
 	if ax != nil {
 		params = ax.Params
-		g.trustedUse["axiom:"+name] = true
+		if !ax.Cex {
+			g.trustedUse["axiom:"+name] = true
+		}
 	} else {
 		params = lem.Params
 	}
@@ -204,6 +206,11 @@ func (g *Gen) useAxiom(env *Env, u *CE) {
 	n := &Env{g: g, st: env.st, old: env.old, vars: vars, pc: env.pc, hyp: true}
 	if ax != nil {
 		h := n.tr(ax.Body, true)
+		if ax.Cex {
+			// only steers the search for counterexample models (cexmode is false in the proof encoding)
+			g.s.assumeUnder(and("cexmode", env.pc), h.S)
+			return
+		}
 		g.s.assumeUnder(env.pc, h.S)
 		return
 	}
